@@ -64,13 +64,16 @@ GF == {t \in G : ~Ignored(P(t))}
 (*                 slot = <<"FOCUS","">> | <<"ANY","">> | <<"IRI", iri>>   *)
 (*                       | <<"LIT", dt, lex>> is not supported by sheXer   *)
 (***************************************************************************)
-TypeTriples == {t \in G : P(t) = cfg.instProp /\ IsNodeT(O(t))}
+\* instances_file_input: class membership (pass 1) is read from a document of its own when one is given, the features (pass 2)
+\* always from doc.  (Behaviour beyond the listed properties: judged as model conformance, never as a property verdict.)
+IDoc == IF "instDoc" \in DOMAIN cfg /\ Len(cfg.instDoc) > 0 THEN cfg.instDoc ELSE doc
+TypeTriples == {t \in ToSet(IDoc) : P(t) = cfg.instProp /\ IsNodeT(O(t))}
 AllClassIds == {O(t)[2] : t \in TypeTriples}
 \* k-th prefix of the document
 RECURSIVE FirstKR(_, _, _, _)
 FirstKR(pos, c, left, acc) ==
-  IF pos > Len(doc) \/ left = 0 THEN acc
-  ELSE LET t == doc[pos] IN
+  IF pos > Len(IDoc) \/ left = 0 THEN acc
+  ELSE LET t == IDoc[pos] IN
        IF P(t) = cfg.instProp /\ IsNodeT(O(t)) /\ O(t)[2] = c /\ S(t) \notin acc
        THEN FirstKR(pos + 1, c, left - 1, acc \cup {S(t)})
        ELSE FirstKR(pos + 1, c, left, acc)
@@ -145,8 +148,8 @@ AddTo(f, n, k) == IF n \in DOMAIN f THEN [f EXCEPT ![n] = @ \cup {k}] ELSE f @@ 
 CountOf(f, c) == IF c \in DOMAIN f THEN f[c] ELSE 0
 RECURSIVE TrackR(_, _, _, _)
 TrackR(pos, inst, counts, done) ==
-  IF pos > Len(doc) THEN [inst |-> inst, stoppedAt |-> 0]
-  ELSE LET t == doc[pos]
+  IF pos > Len(IDoc) THEN [inst |-> inst, stoppedAt |-> 0]
+  ELSE LET t == IDoc[pos]
            c == O(t)[2]
            relevant == /\ P(t) = cfg.instProp /\ IsNodeT(O(t))
                        /\ (cfg.mode \in {"all", "mixed"} \/ c \in ToSet(cfg.targets))
